@@ -268,9 +268,15 @@ class SqliteQueue(SqliteDLQMixin, Queue):
 
         locked_until = datetime.now(UTC) + (duration or self.lock_duration)
         conn = self._get_connection()
+        # Every claim increments attempts, so (id, attempts) identifies the claim
+        # this message object came from: a holder whose lock lapsed and whose
+        # message was claimed again must not touch the new holder's lock.
         cursor = conn.execute(
-            f"UPDATE {self.table_name} SET locked_until = :locked_until WHERE id = :id",
-            {"locked_until": locked_until.isoformat(), "id": msg_id},
+            f"""
+            UPDATE {self.table_name} SET locked_until = :locked_until
+            WHERE id = :id AND (:attempts = 0 OR attempts = :attempts)
+            """,
+            {"locked_until": locked_until.isoformat(), "id": msg_id, "attempts": message.attempts or 0},
         )
         conn.commit()
         return cursor.rowcount == 1
@@ -298,14 +304,17 @@ class SqliteQueue(SqliteDLQMixin, Queue):
         deliver_at = datetime.now(UTC) + delay
         conn = self._get_connection()
 
+        # Only the claim this message object came from may be given up (see
+        # extend_lock): if the message was claimed again meanwhile, the lock
+        # and the delivery time now belong to the new holder.
         conn.execute(
             f"""
             UPDATE {self.table_name}
             SET deliver_at = :deliver_at,
                 locked_until = NULL
-            WHERE id = :id
+            WHERE id = :id AND (:attempts = 0 OR attempts = :attempts)
             """,
-            {"id": msg_id, "deliver_at": deliver_at.isoformat()},
+            {"id": msg_id, "deliver_at": deliver_at.isoformat(), "attempts": message.attempts or 0},
         )
         conn.commit()
 
